@@ -282,7 +282,7 @@ def job_two_theta_shapes(job, seed):
     """two_theta with array-valued beams: per-pixel incident AND scattered beams (same dim), incident per-pixel with a
     single scattered beam, and beams over different dims (outer).  Every element of the result must be the angle between
     the corresponding pair of beams, on every path, and no argument may be written."""
-    lay = job
+    lay, npix = job if isinstance(job, tuple) else (job, 2)
     import numpy as np
     from symex import core as C
     from symex import loader
@@ -295,13 +295,13 @@ def job_two_theta_shapes(job, seed):
     fresh_run()
     uL = sym_unit('L', 'm')
     d1, d2 = {'both-per-pixel': ('spectrum', 'spectrum'), 'incident-per-pixel': ('spectrum', None), 'outer': ('a', 'b'), 'scattered-per-pixel': (None, 'spectrum')}[lay]
-    b1 = sym_vector('b1', uL) if d1 is None else sym_vectors('b1v', d1, 2, uL)
-    b2 = sym_vector('b2', uL) if d2 is None else sym_vectors('b2v', d2, 2, uL)
+    b1 = sym_vector('b1', uL) if d1 is None else sym_vectors('b1v', d1, npix, uL)
+    b2 = sym_vector('b2', uL) if d2 is None else sym_vectors('b2v', d2, npix, uL)
     obs, cands = [], []
     case = {'kind': 'two_theta_shapes', 'layout': lay}
 
     def rows(b):
-        return [list(b.values[i]) for i in range(2)] if b.dims else [list(b.values)]
+        return [list(b.values[i]) for i in range(npix)] if b.dims else [list(b.values)]
 
     norms = {}
     for nm, b in (('b1', b1), ('b2', b2)):
@@ -313,19 +313,19 @@ def job_two_theta_shapes(job, seed):
     V.WRITE_LOG.clear()
     paths = C.explore(lambda: bl.two_theta(incident_beam=b1, scattered_beam=b2))
     written = {b.id for b in V.WRITE_LOG}
-    ob = C.prove(f'two_theta[{lay}]:no-argument-written', C.B.const(not ({b1._buf.id, b2._buf.id} & written)))
+    ob = C.prove(f'two_theta[{lay},{npix}]:no-argument-written', C.B.const(not ({b1._buf.id, b2._buf.id} & written)))
     obs.append(ob_dict(ob))
     if ob.status != 'discharged':
         cands.append(('C03:mutation', case, 'an argument buffer is written'))
     for k_, p_ in enumerate(paths):
         if p_.inconclusive or p_.exc is not None:
-            obs.append({'name': f'two_theta[{lay}]:path{k_}:runs', 'status': 'inconclusive' if p_.inconclusive else 'violated', 'detail': str(p_.inconclusive or repr(p_.exc))[:200], 't': 0})
+            obs.append({'name': f'two_theta[{lay},{npix}]:path{k_}:runs', 'status': 'inconclusive' if p_.inconclusive else 'violated', 'detail': str(p_.inconclusive or repr(p_.exc))[:200], 't': 0})
             if p_.exc is not None:
                 cands.append(('C03:two_theta:raises', case, repr(p_.exc)))
             continue
         out = p_.value
         exp_dims = tuple(dict.fromkeys([d for d in (d1, d2) if d is not None]))
-        ob = C.prove(f'two_theta[{lay}]:path{k_}:dims {exp_dims}, unit rad', C.B.const(set(out.dims) == set(exp_dims) and str(out.unit) == str(V.parse_unit('rad'))))
+        ob = C.prove(f'two_theta[{lay},{npix}]:path{k_}:dims {exp_dims}, unit rad', C.B.const(set(out.dims) == set(exp_dims) and str(out.unit) == str(V.parse_unit('rad'))))
         obs.append(ob_dict(ob))
         if ob.status != 'discharged':
             cands.append(('C03:two_theta:shape', case, f'dims {out.dims} unit {out.unit}'))
@@ -350,10 +350,10 @@ def job_two_theta_shapes(job, seed):
                     else:
                         cosr = None
             if cosr is None:
-                obs.append({'name': f'two_theta[{lay}]:path{k_}:{list(idx)}:structure', 'status': 'violated', 't': 0, 'detail': f'result is not an atan2 form: {str(term)[:120]}'})
+                obs.append({'name': f'two_theta[{lay},{npix}]:path{k_}:{list(idx)}:structure', 'status': 'violated', 't': 0, 'detail': f'result is not an atan2 form: {str(term)[:120]}'})
                 cands.append(('C03:two_theta:structure', case, 'result is not an atan2 form'))
                 continue
-            ob = C.prove(f'two_theta[{lay}]:path{k_}:{list(idx)}: cos(result) = b1[{i1}].b2[{i2}]/(|b1||b2|), result in [0, pi]', (cosr == c_) & ynn, pc=p_.pc, timeout_ms=30000)
+            ob = C.prove(f'two_theta[{lay},{npix}]:path{k_}:{list(idx)}: cos(result) = b1[{i1}].b2[{i2}]/(|b1||b2|), result in [0, pi]', (cosr == c_) & ynn, pc=p_.pc, timeout_ms=30000)
             obs.append(ob_dict(ob))
             if ob.status == 'violated':
                 cands.append(('C03:two_theta:value', case, f'element {list(idx)} is not the angle between beams {i1} and {i2}'))
@@ -495,11 +495,11 @@ def run(chk):
     bl = loader.load('conversion.beamline')
     gb = loader.load('conversion.graph.beamline')
     chk.functions = loader.describe_exprs(['bl.L1', 'bl.L2', 'bl.straight_incident_beam', 'bl.straight_scattered_beam', 'bl.total_beam_length', 'bl.total_straight_beam_length_no_scatter', 'bl.two_theta', 'gb.beamline'], {**globals(), **locals()})
-    run_jobs(chk, job_euclid, [(True, None), (False, None), (True, 2), (False, 2)])
+    run_jobs(chk, job_euclid, [(True, None), (False, None), (True, 2), (False, 2)] + ([(True, 3), (False, 3), (True, 1), (True, 4)] if chk.tier == 'thorough' else []))
     run_jobs(chk, job_two_theta, ['definition', 'units', 'symmetry', 'rescale', 'rotation', 'stability-canary'])
     # layouts in which the detector carries the pixel dim (dims of the incident beam are a subset of the scattered beam's);
     # a per-pixel incident beam with a single scattered beam raises DimensionError in the real code (loud, outside the quantifier)
-    run_jobs(chk, job_two_theta_shapes, ['both-per-pixel', 'scattered-per-pixel'])
+    run_jobs(chk, job_two_theta_shapes, [('both-per-pixel', 2), ('scattered-per-pixel', 2)] + ([('both-per-pixel', 3), ('scattered-per-pixel', 3), ('both-per-pixel', 1), ('scattered-per-pixel', 4)] if chk.tier == 'thorough' else []))
     run_jobs(chk, job_stability, [False, True])
     run_jobs(chk, job_length_stability, ['Ltotal (no scatter)', 'L1 from positions', 'L2 from positions'])
     from . import shimval
